@@ -26,7 +26,11 @@ func witnesses(ops hx.Counter, withPoll bool) []Case {
 	tag("spend_endblock_honest", runDynRate(DynRateParams{Seed: 9004,
 		Pools: []PoolSpec{{Creator: 1, Dynamic: true, Period: 60, Bens: []BenSpec{{2, "1", true}, {3, "2", true}}, Deposit: "100000ukex"},
 			{Creator: 2, Dynamic: false, Period: 0, Bens: []BenSpec{{2, "1", true}}, Deposit: "5ukex"}}, Dts: []int64{5, 61, 61}, Claims: []int{-1, 0, -1}}, ops))
-	// gov: a voter loses its directly whitelisted vote permission after voting 
+	// a due dynamic pool with a deposit and NO registered claimer (total weight 0) must be skipped, also when its period is 0
+	tag("spend_endblock_no_claimers", runDynRate(DynRateParams{Seed: 9005,
+		Pools: []PoolSpec{{Creator: 1, Dynamic: true, Period: 1, Bens: []BenSpec{{2, "1", false}}, Deposit: "1000ukex"},
+			{Creator: 2, Dynamic: true, Period: 0, Bens: []BenSpec{{3, "2", false}}, Deposit: "7ukex"}}, Dts: []int64{5, 61}, Claims: []int{-1, -1}}, ops))
+	// gov: a voter loses its directly whitelisted vote permission after voting
 	tag("gov_votes_gt_voters_direct", runQuorumPerm(QuorumPermParams{Seed: 9011, Direct: []int{1, 2}, Voting: []int{0, 1, 2}, Mutations: []int{1}, MutArg: []int{1}}, ops))
 	// ... loses the role that carried the permission
 	tag("gov_votes_gt_voters_role", runQuorumPerm(QuorumPermParams{Seed: 9012, ViaRole: []int{1, 2}, Voting: []int{0, 1, 2}, Mutations: []int{2}, MutArg: []int{1}}, ops))
@@ -41,6 +45,11 @@ func witnesses(ops hx.Counter, withPoll bool) []Case {
 		tag("gov_poll_votes_gt_voters", runPoll(PollParams{Seed: 9051, Unassign: true}, ops))
 		tag("gov_poll_honest", runPoll(PollParams{Seed: 9052, Unassign: false}, ops))
 	}
+	// input-only panic (UBI period 0): filtered by the dry run; and a valid UBI record through its end-blocker
+	tag("input_only_panic_filtered_ubi_period_zero", runUbi(UbiParams{Seed: 9071, Period: 0, Amount: 10}, ops))
+	tag("ubi_endblock_honest", runUbi(UbiParams{Seed: 9072, Period: 31556952, Amount: 1}, ops))
+	// amount 2^63: amount*31556952 wraps to 0 in the hard-cap check (C13), int64(amount) is negative in the UBI end-blocker
+	tag("ubi_endblock_amount_wraps", runUbi(UbiParams{Seed: 9073, Period: 86400, Amount: 1 << 63}, ops))
 	// the sanctioned halt
 	tag("upgrade_halt_sanctioned", runUpgrade(UpgradeParams{Seed: 9061, Instate: false, Skip: false}, ops))
 	tag("upgrade_instate_skip_no_halt", runUpgrade(UpgradeParams{Seed: 9062, Instate: true, Skip: true}, ops))
